@@ -90,4 +90,50 @@ macro "pre_simp" "[" ts:simpLemma,* "]" : tactic =>
 
 theorem dec_beq0 (n : Nat) : decide (n = 0) = (n == 0) := by cases n <;> simp
 
+theorem findIdx?_cons_shift (p : Nat → Bool) (x : Nat) (l : List Nat) :
+    (x :: l).findIdx? p = if p x then some 0 else (l.findIdx? p).map (· + 1) := by
+  simp [List.findIdx?_cons]
+
+/-- the loop of `find(char)` from index `k` on -/
+theorem findC_loop_spec (s : St) (v c : Nat) (base : Base) (off : Nat) (a : List Nat)
+    (hread : ∀ i, i < a.length → rdVal s base (off + i) = some (a.getD i 0)) :
+    ∀ (n k fuel : Nat), k + n = a.length → n < fuel →
+      Body.findC_loop1 fuel s v c ⟨base, off + k⟩ ⟨base, off + a.length⟩
+        = some (((a.drop k).findIdx? (· == c)).map (fun i => (⟨base, off + k + i⟩ : CPtr))) := by
+  intro n
+  induction n with
+  | zero =>
+    intro k fuel hk hf
+    cases fuel with
+    | zero => omega
+    | succ fuel =>
+      have : k = a.length := by omega
+      subst this
+      simp [Body.findC_loop1]
+  | succ n ih =>
+    intro k fuel hk hf
+    cases fuel with
+    | zero => omega
+    | succ fuel =>
+      have hlt : k < a.length := by omega
+      have hr := hread k hlt
+      have hd : a.drop k = a.getD k 0 :: a.drop (k + 1) := by
+        rw [List.drop_eq_getElem_cons hlt]; simp [List.getD, List.getElem?_eq_getElem hlt]
+      obtain ⟨x, hx⟩ : ∃ x, a.getD k 0 = x := ⟨_, rfl⟩
+      rw [hx] at hr hd
+      rw [hd, findIdx?_cons_shift]
+      have ih' := ih (k + 1) fuel (by omega) (by omega)
+      unfold Body.findC_loop1
+      simp only [show off + k < off + a.length by omega, if_true, loadChar, Nat.add_zero, hr, Option.bind_eq_bind,
+        Option.bind_some, Option.pure_def, padd]
+      by_cases e : x = c
+      · simp [e]
+      · have e' : (x == c) = false := by simp [e]
+        simp only [e, if_false, e', Bool.false_eq_true]
+        rw [show off + k + 1 = off + (k + 1) by omega, ih']
+        cases (a.drop (k + 1)).findIdx? (· == c) with
+        | none => simp
+        | some i => simp; omega
+
+
 end Nstd.Str
